@@ -192,10 +192,15 @@ def cases(tier, seed):
         out.append(dict(kind='mixed-history', cfg=rng.choice(cfgs2 + [dict(p=3), dict(p=2, r=1)]), hseed=rng.randrange(10 ** 9),
                         length=rng.randint(2, L), wrapper=bool(rng.random() < 0.5)))
     # --- registered functions that share a Python __name__ (closures of one factory, a user function called div / sqrt ...)
-    for scenario in ('closures', 'closures-nested', 'closures-symbolic', 'named-div', 'named-sqrt', 'named-custom', 'named-codegen_gp', 'redefined'):
+    for scenario in ('closures', 'closures-nested', 'closures-symbolic', 'named-div', 'named-sqrt', 'named-custom', 'named-codegen_gp', 'redefined', 'name-tail-digits'):
         for wrapped in (False, True):
             for cfg in (cfgs2 if tier == 'thorough' else cfgs2[:2]):
                 out.append(dict(kind='same-name', cfg=cfg, scenario=scenario, wrapped=wrapped, ka=rng.sample(range(4), 2), kb=rng.sample(range(4), 2)))
+    # --- the same, in a FRESH interpreter (the serial numbers of registrations are process-wide): function names ending in
+    #     digits, twelve registrations, non-canonical key orders -- the pieces of a generated name must not be confusable
+    for use_wrapper in (False, True):
+        for variant in ('scale', 'coefficient'):
+            out.append(dict(kind='fresh-process-names', use_wrapper=use_wrapper, variant=variant))
     # --- two threads: every schedule with at most k preemptions at line boundaries of the cache / generation drivers
     scen = [('same', 'gp'), ('same', 'add'), ('same', 'sw'), ('permuted', 'gp'), ('permuted', 'sub'), ('permuted', 'op'), ('two-ops', 'sw'), ('two-ops', 'proj'),
             ('same', 'inv'), ('permuted', 'reverse'), ('symbolic-call', 'gp'), ('registered', 'gp'), ('registered', 'sw')]
@@ -281,6 +286,8 @@ def run_case(desc, V):
         return _run_object(desc, V)
     if desc['kind'] == 'same-name':
         return _run_same_name(desc, V)
+    if desc['kind'] == 'fresh-process-names':
+        return _run_fresh_names(desc)
     if desc['kind'] == 'thread-schedules':
         return _run_threads(desc, V)
     return _run_mixed(desc, V)
@@ -808,6 +815,20 @@ def _run_same_name(desc, V):
             calls = [('outer#0', ro, plain_outer, [x]), ('triple', r3, f3, [x]), ('outer#1', ro, plain_outer, [x]), ('double', r2, f2, [x]), ('outer#2', ro, plain_outer, [x])]
         else:
             calls = [('double#0', r2, f2, [x]), ('triple#0', r3, f3, [x]), ('double#1', r2, f2, [x]), ('triple#1', r3, f3, [x]), ('double(y)', r2, f2, [y])]
+    elif sc == 'name-tail-digits':
+        # functions whose names end in digits, registered many times, called with non-canonical key orders: the pieces a generated
+        # name is glued from (function name, serial number of the registration, key tag) must not be confusable
+        fa = [_mk_named('c09_rot', 'a * 2', 1) for _ in range(14)]
+        fb = [_mk_named(f'c09_rot_{j}', 'a * 3', 1) for j in range(14)]
+        ra = [alg.register(f) for f in fa]
+        rb = [alg.register(f) for f in fb]
+        ks = tuple(desc['ka'])
+        xs = [x, mv(alg, V, 'x2', list(ks)[::-1]), y]
+        for j in (0, 1, 2, 3, 11, 13):
+            for t, xv in enumerate(xs):
+                calls.append((f'rot[{j}]#{t}', ra[j], fa[j], [xv]))
+                calls.append((f'rot_{j}#{t}', rb[j], fb[j], [xv]))
+        calls = calls + calls[:12]
     elif sc == 'redefined':
         # the documented decorator form used twice for the same name (a notebook cell run again with another body)
         g1 = _mk_named('c09_cell', 'a * b', 2)
@@ -837,4 +858,66 @@ def _run_same_name(desc, V):
             claims.append(Fail(f'{label}:raises', f'{label}: the registered function raised RecursionError (the plain function returns)', fkey=fkey + '|raises'))
             continue
         claims += mv_eq_claims(label, got, want, fkey=fkey)
+    return claims
+
+
+_FRESH_NAMES = r"""
+import json, sys
+from kingdon import Algebra
+def ident(f):
+    def wrapped(*args):
+        return f(*args)
+    wrapped.__name__ = f.__name__
+    return wrapped
+use_wrapper, variant = sys.argv[1] == '1', sys.argv[2]
+alg = Algebra(2, wrapper=ident if use_wrapper else None)
+def helper(i):
+    def h(a):
+        return a + a
+    h.__name__ = f'helper{i}'
+    return h
+regs = []
+def reg(f):
+    r = alg.register(f); regs.append(r); return r
+for i in (0, 1):
+    reg(helper(i))
+def rot(a):
+    return 2 * a if variant == 'scale' else a.e1
+rot_r = reg(rot)
+for i in range(3, 11):
+    reg(helper(i))
+def rot_2(a):
+    return 3 * a if variant == 'scale' else a.e2
+rot_2_r = reg(rot_2)
+def outer(a):
+    return rot_r(a)
+outer_r = reg(outer)
+x = alg.multivector(keys=(3, 1, 0), values=[1.0, 10.0, 100.0])
+y = alg.multivector(keys=(1, 0), values=[5.0, 7.0])
+f, plain = (rot_r, rot) if use_wrapper else (outer_r, rot)
+def co(m):
+    return {int(k): float(v) for k, v in zip(m.keys(), m.values())} if hasattr(m, 'keys') else {0: float(m)}
+out = {}
+try:
+    out['first'] = co(f(x)); rot_2_r(y); out['second'] = co(f(x)); out['want'] = co(plain(x))
+    out['ok'] = all(abs(out[k].get(b, 0) - out['want'].get(b, 0)) < 1e-12 for k in ('first', 'second') for b in set(out[k]) | set(out['want']))
+except Exception as e:
+    out['ok'] = False; out['error'] = f'{type(e).__name__}: {e}'
+print(json.dumps(out))
+"""
+
+
+def _run_fresh_names(desc):
+    import json, os, subprocess, sys
+    r = subprocess.run([sys.executable, '-c', _FRESH_NAMES, '1' if desc['use_wrapper'] else '0', desc['variant']], capture_output=True, text=True,
+                       env=dict(os.environ), timeout=300)
+    line = (r.stdout.strip().splitlines() or ['{}'])[-1]
+    try:
+        res = json.loads(line)
+    except ValueError:
+        res = {'ok': False, 'error': (r.stderr or r.stdout)[-300:]}
+    claims = [Note('nontrivial', ''), Eq('reached', 1, 1)]
+    if not res.get('ok'):
+        claims.append(Fail('fresh-process-names', f'in a fresh interpreter, rot (3rd registration) called with keys (3,1,0) before and after rot_2 (12th registration) was called with keys (1,0): {res}',
+                           fkey=f'fresh-process-names|{"wrapper" if desc["use_wrapper"] else "nested"}'))
     return claims
